@@ -23,7 +23,8 @@ def docs_grammar(rnd, n):
             return sp + nm + eq + '"' + rnd.choice(['v', '', 'a b', "it's", '&amp;', '>']) + '"'
         if form == 2:
             return sp + nm + eq + "'" + rnd.choice(['v', '', 'a "b"', '&lt;']) + "'"
-        return sp + nm + eq + rnd.choice(['v', '1', 'a-b'])
+        # unquoted values (HTML): anything but white space, quotes, '=', '<', '>' and a back-tick
+        return sp + nm + eq.strip() + rnd.choice(['v', '1', 'a-b', '/v', 'a/b', 'http://h/p/', '#x', 'a.b:c'])
     def elem(depth):
         nm = rnd.choice(names)
         attrs = ''.join(attr() for _ in range(rnd.randrange(3)))
@@ -135,6 +136,15 @@ def main():
             check(d, 'soup')
             if bad:
                 break
+    if not bad:
+        # tags the dissection cannot read (unterminated quotes, '=' without a value): compiled
+        # verbatim or rejected with a TemplateError, never a crash
+        for nm in ('p', 'td', 'x:y'):
+            for a in (' t="x', " t='x", ' x= ', ' x=/', ' k="v" t="x', ' t=""x"', ' t=\'\'\''):
+                for end in ('>', '/>', ' >'):
+                    check('<%s%s%s' % (nm, a, end) + ('text</%s>' % nm if end != '/>' else ''), 'malformed')
+                    if bad:
+                        break
     if not bad:
         for d in docs_grammar(rnd, 1500 if maxlen <= 4 else 6000):
             check(d, 'grammar')
